@@ -1,9 +1,14 @@
 #!/bin/bash
 # Builds the framework from files on disk only (offline): harness (against /repo's working tree),
-# Gen files, Lean library + driver.
+# the real command-line binary (C18), Gen files, Lean library, both executables and every property
+# module — so that each check afterwards only re-checks what the tree changed.
 set -e
 cd "$(dirname "$0")/.."
 export CARGO_NET_OFFLINE=true
-(cd harness && cargo build 2>&1 | tail -3)
+(cd harness && cargo build 2>&1 | tail -1)
+(cd /repo && cargo build --offline --bin avra-rs --target-dir /verif/.cache/repo-target 2>&1 | tail -1)
 python3 tools/gen.py
-(cd lean && lake build Avra avra_driver 2>&1 | tail -3)
+cd lean
+lake build Avra avra_driver avra_spec 2>&1 | tail -1
+mods=$(ls Avra/Props/C*.lean | sed 's|/|.|g; s|\.lean$||')
+lake build $mods 2>&1 | tail -1
